@@ -37,3 +37,11 @@ pub assume_specification<T, P: FnOnce(&T) -> bool> [ Option::<T>::filter ](o: Op
         o.is_some() && predicate.ensures((&o.unwrap(),), false) ==> r.is_none(),
 ;
 
+
+/// Option::map_or (core)
+pub assume_specification<T, U, F: FnOnce(T) -> U> [ Option::<T>::map_or ](o: Option<T>, default: U, f: F) -> (r: U)
+    requires o.is_some() ==> f.requires((o.unwrap(),)),
+    ensures
+        o.is_none() ==> r == default,
+        o.is_some() ==> f.ensures((o.unwrap(),), r),
+;
